@@ -225,6 +225,17 @@ func genC20(t *rapid.T) any {
 		}
 		c.Queries = append(c.Queries, q)
 	}
+	if rapid.IntRange(0, 3).Draw(t, "names") == 0 {
+		// the registers under other names: distinct strings are distinct registers, however alike they look
+		// (numeric texts spelling one number, letter case, blanks, an empty name)
+		c.rename(rapid.SampledFrom([]map[string]string{
+			{"k1": "7", "k2": "07", "k3": "+7", "never": "7.0"},
+			{"k1": "1", "k2": "1.0", "k3": "01", "never": "1e0"},
+			{"k1": "a", "k2": "A", "k3": "a ", "never": " a"},
+			{"k1": "x", "k2": "x'", "k3": "é", "never": "e"},
+			{"k1": "02134", "k2": "2134", "k3": "0x10", "never": "16"},
+		}).Draw(t, "nameset"))
+	}
 	c.PreBuild = rapid.IntRange(0, 2).Draw(t, "prebuild") == 0
 	for _, q := range c.Queries {
 		if q.Form != "" || q.Arm2 != nil {
@@ -234,6 +245,63 @@ func genC20(t *rapid.T) any {
 		}
 	}
 	return c
+}
+
+// rename gives the registers of the case other names (kb keeps its name: the check maps its values).
+func (c *C20Case) rename(m map[string]string) {
+	nm := func(k string) string {
+		if n, ok := m[k]; ok {
+			return n
+		}
+		return k
+	}
+	remap := func(mm map[string]any) map[string]any {
+		if mm == nil {
+			return nil
+		}
+		out := map[string]any{}
+		for k, v := range mm {
+			out[nm(k)] = v
+		}
+		return out
+	}
+	var expr func(e *sq.E)
+	expr = func(e *sq.E) {
+		if e == nil {
+			return
+		}
+		if e.K == "call" && strings.EqualFold(e.S, "GETVAR") && len(e.A) == 1 && e.A[0].K == "str" {
+			e.A[0].S = nm(e.A[0].S)
+			return
+		}
+		for _, a := range e.A {
+			expr(a)
+		}
+	}
+	var query func(q *C20Query)
+	query = func(q *C20Query) {
+		q.Pre = remap(q.Pre)
+		expr(q.Where)
+		for i := range q.Items {
+			it := &q.Items[i]
+			if it.Key != "" {
+				it.Key = nm(it.Key)
+			}
+			if it.Key2 != "" {
+				it.Key2 = nm(it.Key2)
+			}
+			expr(it.Val)
+			expr(it.Val2)
+			expr(it.Cond)
+		}
+		if q.Arm2 != nil {
+			query(q.Arm2)
+		}
+	}
+	c.Init = remap(c.Init)
+	for i := range c.Queries {
+		query(&c.Queries[i])
+	}
 }
 
 func (q *C20Query) sql() string {
